@@ -132,10 +132,17 @@ def generate(seed, tier="quick"):
         c = rnd.random()
         fits = p.endswith(".fits")
         if p not in base_of or c < 0.18:
-            t = gen_table(rnd)
-            tables.append(t)
+            if tables and rnd.random() < 0.35:
+                # the SAME JokerSamples object written again (other path, or after a refused write):
+                # a write must not change the object it writes
+                ti = rnd.randrange(len(tables))
+                t = tables[ti]
+            else:
+                t = gen_table(rnd)
+                tables.append(t)
+                ti = len(tables) - 1
             ov = rnd.random() < 0.7
-            ops.append({"id": oid, "op": "write", "path": p, "table": len(tables) - 1, "overwrite": ov})
+            ops.append({"id": oid, "op": "write", "path": p, "table": ti, "overwrite": ov})
             base_of.setdefault(p, t)
             if ov:
                 base_of[p] = t
@@ -352,6 +359,8 @@ def run(program):
             log.add("op-begin", kind, {k: x for k, x in op.items() if k != "id"})
             distinct.add("%s:%s:%s:%s" % (kind, op.get("variant", op.get("via", (op.get("selector") or {}).get("kind", ""))), "fits" if fits else "hdf5", "exists" if m is not None else "missing"))
 
+            selbox = {}
+
             def do():
                 if kind in ("write", "append", "append_overwrite"):
                     ti = op["table"]
@@ -379,7 +388,7 @@ def run(program):
                         so = np.array([int(f * n) % max(n, 1) for f in sel["frac"]], dtype=int)
                     else:
                         so = max(1, int(sel["frac"] * n)) if n else 1
-                    op["_sel"] = so
+                    selbox["so"] = so
                     uu = None if op.get("units") is None else {k: u.Unit(x) for k, x in op["units"].items()}
                     g = recgen.make(sel.get("rng_seed", 0), rec) if sel["kind"] == "int" else None
                     return read_batch(path, op["columns"], so, units=uu, rng=g)
@@ -527,7 +536,7 @@ def run(program):
                 continue
             if kind == "read_batch":
                 sel = op["selector"]
-                so = op.get("_sel")
+                so = selbox.get("so")
                 cols = op["columns"]
                 missing = [c for c in cols if c not in m.cols]
                 if missing:
